@@ -189,6 +189,8 @@ impl CheckedBackend {
 
     fn len(&self) -> Result<u64> {
         let _in_flight = self.begin_call()?;
+        #[cfg(redb_verif)]
+        crate::verif_types::pause("backend.len");
         let result = self.file.len();
         if result.is_err() {
             self.io_failed.store(true, Ordering::Release);
@@ -209,6 +211,8 @@ impl CheckedBackend {
 
     fn set_len(&self, len: u64) -> Result<()> {
         let _in_flight = self.begin_call()?;
+        #[cfg(redb_verif)]
+        crate::verif_types::pause("backend.set_len");
         let result = self.file.set_len(len);
         if result.is_err() {
             self.io_failed.store(true, Ordering::Release);
@@ -218,6 +222,8 @@ impl CheckedBackend {
 
     fn sync_data(&self) -> Result<()> {
         let _in_flight = self.begin_call()?;
+        #[cfg(redb_verif)]
+        crate::verif_types::pause("backend.sync_data");
         let result = self.file.sync_data();
         if result.is_err() {
             self.io_failed.store(true, Ordering::Release);
@@ -241,6 +247,8 @@ impl CheckedBackend {
     // over data that nothing was waiting on.
     fn write_best_effort(&self, offset: u64, data: &[u8]) -> Result<()> {
         let _in_flight = self.begin_call()?;
+        #[cfg(redb_verif)]
+        crate::verif_types::pause("backend.write_best_effort");
         self.file.write(offset, data).map_err(StorageError::from)
     }
 }
